@@ -103,6 +103,10 @@ def one_history(args):
                     if ents_inc[n] != (len(data), hashlib.sha1(data).hexdigest()):
                         stale_before.add(n)
             _Clock.now = prev + DAY + rng.random() * 100
+            if rng.random() < 0.15:
+                # the clock was stepped back (or the previous update ran on a host whose clock is
+                # ahead): the previous TIMESTAMP lies in the future
+                _Clock.now = prev - rng.choice([30, 3600, DAY]) + rng.random()
             ops = {}
             live = [n for n in names if os.path.exists(os.path.join(A, n))]
             for n in rng.sample(live, min(len(live), rng.randrange(0, 4))):
@@ -110,6 +114,8 @@ def one_history(args):
                 # mtime relative to the previous TIMESTAMP
                 d = rng.choice([-3600.0, -1.0, 0.0, 0.001, 0.5, 0.999, 1.0, 60.0, 3 * 3600.0, 6 * 3600.0, 12 * 3600.0,
                                 _Clock.now - prev - 1])
+                if _Clock.now < prev:
+                    d = rng.choice([-2.0 * DAY, _Clock.now - prev - 1, 1.0, 60.0])
                 ops[n] = (kind, d)
             if rng.random() < 0.5:
                 nn = 'new%d' % rnd
@@ -178,6 +184,7 @@ def one_history(args):
                     state['done'] = True
                 return r
             scan_start = _Clock.now
+            top_before = open(os.path.join(A, 'Manifest'), 'rb').read()
             gem.gemato.recursiveloader.update_entry_for_path = wrapper
             try:
                 oa = gem.run_cli(['update', '--incremental', '--hashes', 'SHA1', A])
@@ -205,6 +212,9 @@ def one_history(args):
                 ea, tsa = read_entries(A)
                 eb, tsb = read_entries(B)
                 dts = int(round((ts_epoch(tsa) - scan_start) * 1000))
+                if open(os.path.join(A, 'Manifest'), 'rb').read() == top_before:
+                    dts = 0       # nothing was written by this update: no TIMESTAMP "written by an update"
+                dts = max(min(dts, 2000000000), -2000000000)
                 for n in names:
                     fl = flist[n]
                     fl['same'] = ea.get(n) == eb.get(n)
